@@ -47,6 +47,69 @@ func hyphensStream(r *Run) {
 		r.Emit(cl, res)
 		return res, cl
 	}
+	// a fixed family: a comment block between two literal texts next to a hyphenated object or tag. The comment leaves
+	// nothing behind, yet the texts on its two sides are two texts: the hyphen strips the one it faces and stops there
+	// ("a {% comment %}c{% endcomment %} {{- n }}" is "a 2": the blank before the comment is not adjacent to the object).
+	{
+		texts := []string{" ", "a ", " a", "\n", "a", " \t "}
+		tx := func(s string) tItem { return tItem{Kind: 'x', Text: s} }
+		tag := func(name, args string) tItem {
+			it := tItem{Kind: 't', Name: name, Args: args, WsL: " ", WsR: " "}
+			if args != "" {
+				it.WsM = " "
+			}
+			return it
+		}
+		heads := []tItem{{Kind: 'o', Args: "n", WsL: " ", WsR: " "}, tag("assign", "q = 1"), tag("if", "flag"), tag("endif", "")}
+		for _, t1 := range texts {
+			for _, t2 := range texts {
+				for hi, h := range heads {
+					for _, body := range []string{"c", " ", ""} {
+						for _, rightSide := range []bool{false, true} {
+							if !r.Mine() {
+								continue
+							}
+							mid := []tItem{tx(t1), tag("comment", "")}
+							if body != "" {
+								mid = append(mid, tx(body))
+							}
+							mid = append(mid, tag("endcomment", ""), tx(t2))
+							hh := h
+							var items, ref []tItem
+							wrap := func(seq []tItem) []tItem { // keep the blocks balanced around the family's piece
+								switch hi {
+								case 2:
+									return append(seq, tag("endif", ""))
+								case 3:
+									return append([]tItem{tag("if", "flag")}, seq...)
+								}
+								return seq
+							}
+							if rightSide { // H -}} T1 comment T2
+								hh.TrimR = true
+								items = wrap(append([]tItem{hh}, mid...))
+								rm := append([]tItem(nil), mid...)
+								rm[0].Text = strings.TrimLeftFunc(rm[0].Text, unicode.IsSpace)
+								ref = wrap(append([]tItem{h}, rm...))
+							} else { // T1 comment T2 {{- H
+								hh.TrimL = true
+								items = wrap(append(append([]tItem(nil), mid...), hh))
+								rm := append([]tItem(nil), mid...)
+								rm[len(rm)-1].Text = strings.TrimRightFunc(rm[len(rm)-1].Text, unicode.IsSpace)
+								ref = wrap(append(rm, h))
+							}
+							res, cl := render(items, "comment-between-texts")
+							resRef := renderImpl(engineCfg{}, "", 0, spell(defaultDelims, ref), RealiseEnv(env))
+							if res != resRef {
+								r.Violate("C13", "hyphen-facing-text-strips-exactly-adjacent-whitespace", cl,
+									fmt.Sprintf("with the hyphen %s ; hyphen dropped and adjacent whitespace deleted %s", res, resRef))
+							}
+						}
+					}
+				}
+			}
+		}
+	}
 	for t := 0; t < n; t++ {
 		mine := r.Mine()
 		items := GenItems(g, tokGenOpts{NoFilterCapture: true, MaxNodes: 5}, r.Stats.Hist)
